@@ -1,0 +1,29 @@
+//go:build verif
+
+// Package verifhook provides observation points for external runtime
+// monitors.  With the "verif" build tag, Emit forwards to the callback
+// installed in Fn (which must be set before any server is started).
+package verifhook
+
+const (
+	EvBegin = iota
+	EvWant
+	EvGot
+	EvFresh
+	EvRelease
+	EvPreCommit
+	EvCommitted
+	EvCommitFailed
+	EvPostCommit
+	EvAbort
+	EvShrinkIter
+)
+
+// Fn receives (event, transaction identity, inode number).
+var Fn func(ev int, txn interface{}, inum uint64)
+
+func Emit(ev int, txn interface{}, inum uint64) {
+	if Fn != nil {
+		Fn(ev, txn, inum)
+	}
+}
